@@ -874,7 +874,7 @@ func (rs *s3ClientStorage) DeleteObjects(ctx context.Context, bucketName storage
 	identifiers := make([]types.ObjectIdentifier, len(entries))
 	for i, entry := range entries {
 		k := entry.Key.String()
-		identifiers[i] = types.ObjectIdentifier{Key: &k, VersionId: entry.VersionID}
+		identifiers[i] = types.ObjectIdentifier{Key: &k, VersionId: entry.VersionID, ETag: entry.IfMatchETag}
 	}
 
 	deleteResult, err := rs.s3Client.DeleteObjects(ctx, &s3.DeleteObjectsInput{
